@@ -291,6 +291,7 @@ type instantiator struct {
 	boundMap    map[boundParam]int
 	instances   []*instance
 	instanceMap *container.IntSliceMap[*instance] // [nonterm, boundParam #1, ...] ->
+	sets        map[*TokenSet]*TokenSet           // compound token sets already instantiated
 }
 
 func (i *instantiator) resolveInstance(context *instance, nonterm int, args []Arg) *instance {
@@ -337,12 +338,22 @@ func (i *instantiator) doSet(set *TokenSet) *TokenSet {
 		}
 		return set
 	}
-	ret := *set
+	// Named sets can refer to themselves and to each other (%generate s = set('a' | s);). Every
+	// compound set is instantiated once; the copy is registered before descending into its parts.
+	if done, ok := i.sets[set]; ok {
+		return done
+	}
+	ret := new(TokenSet)
+	*ret = *set
+	if i.sets == nil {
+		i.sets = make(map[*TokenSet]*TokenSet)
+	}
+	i.sets[set] = ret
 	ret.Sub = make([]*TokenSet, 0, len(set.Sub))
 	for _, sub := range set.Sub {
 		ret.Sub = append(ret.Sub, i.doSet(sub))
 	}
-	return &ret
+	return ret
 }
 
 func (i *instantiator) check(context *instance, p *Predicate) bool {
